@@ -6,8 +6,7 @@
 1. copies the three files to /verif/seeded/<seed-name>/
 2. in a scratch copy of /repo HEAD: applies the patch, builds both configurations, runs the repository tests,
    builds demo.c with ASan/UBSan with and without the patch and records exit codes
-3. applies the patch to /repo's working tree, runs ./check for every claimed property (or --props), and
-   reverts /repo (git checkout -- .)
+3. runs ./check for every claimed property (or --props) against the patched scratch copy (CJSA_REPO)
 Results are written into meta.json under "confirmed" and "checks".
 """
 import json
@@ -61,32 +60,29 @@ def main():
             confirmed['demo_%s_patch_exit' % side] = rc2
         confirmed['ok'] = bool(confirmed['patch_applies'] and confirmed['tests_default'] and
                                confirmed['demo_with_patch_exit'] != 0 and confirmed['demo_without_patch_exit'] == 0)
+        # run the checks against the patched scratch copy (CJSA_REPO); /repo itself is not touched
+        from cjsa import props as P
+        results = {}
+        if not confirmed['patch_applies']:
+            results['apply'] = confirmed.get('patch_output', '')
+        else:
+            sh('rm -rf _b _bu demo_bin', cwd=scratch + '/with')
+
+            def one(pid):
+                env_out = tempfile.mkdtemp(prefix='seedout_')
+                r = subprocess.run([os.path.join(HERE, 'check'), pid], env=dict(os.environ, CJSA_OUT=env_out, CJSA_REPO=scratch + '/with'),
+                                   stdout=subprocess.PIPE, stderr=subprocess.STDOUT, text=True)
+                shutil.rmtree(env_out, ignore_errors=True)
+                lines = [l for l in r.stdout.split('\n') if l and 'conda' not in l]
+                return pid, {'exit': r.returncode,
+                             'reports': [l for l in lines if not l.startswith('VIOLATION') and not l.startswith(pid + ' [')][:6]}
+            from concurrent.futures import ThreadPoolExecutor
+            with ThreadPoolExecutor(max_workers=6) as ex:
+                for pid, res in ex.map(one, props or P.claimed()):
+                    results[pid] = res
     finally:
         shutil.rmtree(scratch, ignore_errors=True)
     meta['confirmed'] = confirmed
-    # run the checks against /repo with the patch applied
-    from cjsa import props as P
-    results = {}
-    rc, out = sh('git -C /repo status --porcelain --untracked-files=no')
-    if out.strip():
-        print('refusing: /repo has uncommitted changes to tracked files')
-        return 2
-    rc, out = sh('git -C /repo apply %s' % os.path.join(dst, 'patch.diff'))
-    if rc != 0:
-        print('git apply failed: %s' % out)
-        results['apply'] = out[-300:]
-    else:
-        try:
-            for pid in (props or P.claimed()):
-                env_out = tempfile.mkdtemp(prefix='seedout_')
-                r = subprocess.run([os.path.join(HERE, 'check'), pid], env=dict(os.environ, CJSA_OUT=env_out),
-                                   stdout=subprocess.PIPE, stderr=subprocess.STDOUT, text=True)
-                lines = [l for l in r.stdout.split('\n') if l and 'conda' not in l]
-                results[pid] = {'exit': r.returncode,
-                                'reports': [l for l in lines if not l.startswith('VIOLATION') and not l.startswith(pid + ' [')][:6]}
-                shutil.rmtree(env_out, ignore_errors=True)
-        finally:
-            sh('git -C /repo checkout -- .')
     meta['checks'] = results
     meta['caught_by'] = sorted(p for p, r in results.items() if isinstance(r, dict) and r.get('exit') == 1)
     json.dump(meta, open(os.path.join(dst, 'meta.json'), 'w'), indent=1)
